@@ -1,6 +1,6 @@
 // rainvc:pkg torrent
 // rainvc:function torrent.(*Session).CompactDatabase
-// rainvc:bound sessions holding the sample torrent added from file and/or from a magnet link (3 combinations), each stopped and never started, with 0 or 1 tracker added afterwards; compacted once and loaded by a fresh session; plus records with started false/true and resume version 1, 2 and latest, compacted by a session that was opened without resuming (6 cases)
+// rainvc:bound sessions holding the sample torrent added from file and/or from a magnet link (3 combinations), each stopped and never started, with 0 or 1 tracker added afterwards, directly or after the session was closed and the torrents were loaded again by a new session; compacted once and loaded by a fresh session; plus records with started false/true and resume version 1, 2 and latest, compacted by a session that was opened without resuming (6 cases)
 package torrent
 
 // Bounded stand-in (bbolt and the codecs are library code, outside the generator's reach):
@@ -30,7 +30,8 @@ func TestRainvcBounded(t *testing.T) {
 	}
 	cases := 0
 	for _, combo := range [][]bool{{false}, {true}, {false, true}} {
-		for _, extra := range []bool{false, true} {
+		for _, extraRestart := range [][2]bool{{false, false}, {true, false}, {false, true}, {true, true}} {
+			extra, restart := extraRestart[0], extraRestart[1]
 			cases++
 			tmp := t.TempDir()
 			cfg := DefaultConfig
@@ -52,6 +53,7 @@ func TestRainvcBounded(t *testing.T) {
 				hasInfo  bool
 			}
 			want := map[string]snap{}
+			var ids []string
 			for _, viaMagnet := range combo {
 				var tor *Torrent
 				opt := &AddTorrentOptions{Stopped: true}
@@ -68,6 +70,23 @@ func TestRainvcBounded(t *testing.T) {
 				if err != nil {
 					t.Fatal(err)
 				}
+				ids = append(ids, tor.ID())
+			}
+			if restart {
+				// the torrents are loaded from the database by a new session before the tracker is added
+				if err := s.Close(); err != nil {
+					t.Fatal(err)
+				}
+				s, err = NewSession(cfg)
+				if err != nil {
+					t.Fatal(err)
+				}
+			}
+			for _, id := range ids {
+				tor := s.GetTorrent(id)
+				if tor == nil {
+					t.Fatalf("violation: torrent %s is gone after a restart", id)
+				}
 				if extra {
 					if err := tor.AddTracker("http://127.0.0.1:9/extra/announce"); err != nil {
 						t.Fatal(err)
@@ -75,7 +94,7 @@ func TestRainvcBounded(t *testing.T) {
 				}
 				want[tor.ID()] = snap{tor.InfoHash(), tor.Name(), tor.Port(), trackerURLs(tor), tor.torrent.info != nil}
 			}
-			what := fmt.Sprintf("session with torrents added via magnet=%v, extra tracker=%v", combo, extra)
+			what := fmt.Sprintf("session with torrents added via magnet=%v, extra tracker=%v, restarted before=%v", combo, extra, restart)
 			out := filepath.Join(tmp, "compact.db")
 			func() {
 				defer func() {
